@@ -1,6 +1,10 @@
-(* Property C12 -- statements only; proofs live in Proofs/.  *)
+(* Property C12 -- statements only; proofs live in Proofs/.  The functions ct_* and
+   ct_check_cbc_mac_and_pad are the Gallina text regenerated from
+   /repo/tlslite/utils/constanttime.py by the translator on every run (Gen/ConstantTime.v). *)
 From Coq Require Import ZArith List Bool.
-From TV Require Import Base.Prelude Gen.ConstantTime Spec.CbcCheck Proofs.CtOps.
+From TV Require Import Base.Prelude Gen.ConstantTime Spec.CbcCheck Proofs.CtOps
+                       Proofs.C12_Lemmas Proofs.C12_Check Toy.ToyMac.
+Import ListNotations.
 Open Scope Z_scope.
 
 (* every constant-time helper equals the plain comparison on the full unsigned 32-bit range *)
@@ -12,3 +16,35 @@ Theorem ct_ops_spec : forall a b, u32 a -> u32 b ->
   ct_eq_u32 a b = (if a =? b then 1 else 0) /\
   ct_isnonzero_u32 a = (if a =? 0 then 0 else 1).
 Proof. exact ct_ops_spec_all. Qed.
+
+(* The combined check is total and returns exactly the specification's verdict, for every body
+   (any length below 2^16, no 256-byte window bound), MAC oracle, sequence number bytes, content
+   type and the four CBC versions.  well_formed says: padding length byte p, p+1+digest bytes
+   fit, TLS: all p padding bytes equal p / SSLv3: p <= block size, and the digest_size bytes
+   before the padding are the MAC of seq|type|[version]|len|data.  Hence no conforming record is
+   rejected and no record with a single wrong MAC or padding byte is accepted. *)
+Theorem check_eq_spec :
+  forall (data : list Z) (mac : HMac) (seq : list Z) (ty : Z) (ver : Z * Z) (bs : Z),
+    In ver [(3,0); (3,1); (3,2); (3,3)] ->
+    all_bytes data = true -> zlen data < 65536 ->
+    byte ty -> 0 < mac_bs mac ->
+    (forall m, zlen (mac_fn mac m) = mac_ds mac /\ all_bytes (mac_fn mac m) = true) ->
+    u32 bs ->
+    ct_check_cbc_mac_and_pad data mac seq ty ver bs = Ok (well_formed ver bs mac seq ty data).
+Proof. exact check_eq_spec_sec. Qed.
+
+(* the hypotheses are satisfiable: the toy MAC used in the correspondence meets the oracle contract *)
+Example mac_contract_satisfiable : forall key m,
+  zlen (mac_fn (toy_hmac key 20 64) m) = mac_ds (toy_hmac key 20 64) /\
+  all_bytes (mac_fn (toy_hmac key 20 64) m) = true.
+Proof. intros key m. split; [apply toy_mac_length; discriminate|apply toy_mac_bytes]. Qed.
+
+(* and the theorem is not vacuous: a concrete accepted and a concrete rejected body *)
+Example accepted_body :
+  well_formed (3,1) 16 (toy_hmac [1;2;3] 4 64) [0;0;0;0;0;0;0;1] 23
+              ([104;105] ++ toy_mac [1;2;3] 4 ([0;0;0;0;0;0;0;1] ++ [23;3;1;0;2;104;105]) ++ [2;2;2]) = true.
+Proof. vm_compute. reflexivity. Qed.
+Example rejected_body :
+  well_formed (3,1) 16 (toy_hmac [1;2;3] 4 64) [0;0;0;0;0;0;0;1] 23
+              ([104;105] ++ toy_mac [1;2;3] 4 ([0;0;0;0;0;0;0;1] ++ [23;3;1;0;2;104;105]) ++ [2;3;2]) = false.
+Proof. vm_compute. reflexivity. Qed.
